@@ -565,5 +565,7 @@ func main() {
 				load.Eval(wLoad{pfs, m, 0})
 			}
 		}
+		// E-SCHED companion: session notification racing with a migration (4 scenarios x 4 subtree shards)
+		c.ForkSched(16, 16)
 	})
 }
